@@ -46,6 +46,14 @@ class EngineProp(Prop):
                 await loop.settle()
                 enginegen.after_apply(sh, H)
                 script.append(group)
+            if sh.pending_frags and not H.closed_seen and case['profile'] != 'loss':
+                # the peer finishes the frames it started (a script must not end inside a frame unless the connection ends there)
+                group = list(sh.pending_frags)
+                sh.pending_frags = []
+                for s in group:
+                    await H.apply_async(s)
+                await loop.settle()
+                script.append(group)
             if case['profile'] == 'loss' and not H.closed_seen:
                 tail = [[rng.choice([{'op': 'lost', 'mode': 'eof'}, {'op': 'lost', 'mode': 'error'}, {'op': 'close'}])]]
                 # the application's on_close may fail, or be suspended while the application closes the endpoint
